@@ -215,6 +215,10 @@ class DI:
 		if len(expect_types) != len(allow_types) or len(expect_types) != len(remain_args):
 			raise ValueError(f'Mismatch invoke arguments. factory: {injector}, expect: {expect_types}, actual: {[type(arg) for arg in remain_args]}')
 
+	def _binded_symbols(self) -> list[type]:
+		"""Returns: 登録済み(ファクトリーが確定済み)のシンボルリスト"""
+		return list(self.__injectors.keys())
+
 	def _clone(self) -> Self:
 		"""インスタンスを複製
 
@@ -245,7 +249,9 @@ class DI:
 			raise TypeError(f'Merging not allowed. not related. self: {self.__class__}, other: {other.__class__}')
 
 		di = self._clone()
-		di.__instances = {**di.__instances, **other.__instances}
+		# マージ対象が登録を持つシンボルは、自身の生成済みインスタンス(=上書きされる登録から生成したもの)を引き継がない
+		own_instances = {symbol: instance for symbol, instance in di.__instances.items() if symbol not in other.__injectors}
+		di.__instances = {**own_instances, **other.__instances}
 		di.__injectors = {**di.__injectors, **other.__injectors}
 		return di
 
@@ -412,4 +418,9 @@ class LazyDI(DI):
 		"""
 		di = super().combine(other)
 		di.__definitions = {**self.__definitions, **other.__definitions}
+		# マージ対象が遅延定義のみ(未解決)で保持するシンボルは、自身の解決済みの登録/インスタンスを引き継がず、マージ対象の定義で上書きする
+		for symbol in self._binded_symbols():
+			if self.__symbolize(symbol) in other.__definitions and not super(LazyDI, other).can_resolve(symbol):
+				super(LazyDI, di).unbind(symbol)
+
 		return di
